@@ -17,7 +17,7 @@ def register(claim):
         'must-call path rule + finite-domain guard table + def-use provenance table', 'DESIGN.md §3 C14')
 
   claim('C09', 'proof',
-        '30 polynomial identities between repo functions (associativity/identity/inverse of '
+        '32 polynomial identities between repo functions (associativity/identity/inverse of '
         'Transform composition, quaternion product vs successive rotation vs 3x3 form, '
         'motion/force duality, kinetic-energy invariance of inertia transport, spatial cross '
         'antisymmetry/duality, norm multiplicativity, Euler construction, numpy twins, CoM round '
@@ -26,8 +26,10 @@ def register(claim):
         'inputs -- strictly more than lattice sampling.  obligations = identities; discharged = '
         'identities whose normal forms coincide.',
         'Trusted: python ast, the polynomial normal-form arithmetic (exact Fractions), the primitive '
-        'table (dot, cross, array, @, transpose).  Not decided: from_to (needs reduction modulo unit '
-        'norm) and quat_to_euler (inverse trig).',
+        'table (dot, cross, array, @, transpose).  from_to (L14) is decided in homogeneous form: the '
+        'generic branch by random interpretation with unit vectors by construction, the antiparallel '
+        'branch exactly in Q(sqrt c) on every lattice direction of [-3,3]^3.  Not decided: '
+        'quat_to_euler (inverse trig).',
         'algebraic value numbering (polynomial normal forms) of straight-line AST', 'DESIGN.md §3 C09')
   claim('C11', 'other',
         'Static equivalence of actuator.to_tau with the stated force law (clip ctrl -> gain + geared '
@@ -242,14 +244,15 @@ def register(claim):
         'passive and smooth force and one contact-free step are obtained by abstract interpretation '
         'of the AST (kinematics.forward, State.init, transform_com, mass.matrix, dynamics.*, '
         'integrator.integrate, pipeline.step, real scan.py) on symbolic models with rotated bodies, '
-        'offset anchors and centres of mass, armature, hinge / slide / free joints in chains, '
-        'branches and forests, and compared with (1) the polarised kinetic energy, (2) Newton-Euler '
+        'offset anchors and centres of mass, armature, hinge / slide / free joints and mixed joint '
+        'stacks in chains, branches and forests, and compared with (1) the polarised kinetic energy, (2) Newton-Euler '
         'projected on the joint-space Jacobians (Coriolis + centrifugal + gravity), (3) the spring-'
         'damper law, (4) semi-implicit Euler with implicit joint damping incl. quaternion integration; '
         'equality of the rational functions of all parameters, q, qd, tau is decided by random '
         'interpretation in GF(2^61-1).',
         'Trusted: python ast, AVN interpreter, reference dynamics braxlint/refkin.py, exact linear solve. '
-        'Single-joint and free links instantiated; the MuJoCo binary is not run; positive definiteness '
+        'Free, single-joint and stacked (mixed hinge / slide, up to 3 per link) links instantiated on '
+        'forests of <= 5 links; the MuJoCo binary is not run; positive definiteness '
         'follows from the kinetic-energy form.',
         'algebraic value numbering vs first-principles reference dynamics, decided by random interpretation',
         'DESIGN.md §3 C02')
